@@ -365,6 +365,8 @@ fn clean_item(it: &mut syn::Item, derive_keep: &[String], subst: &BTreeMap<Strin
 
 struct Rules {
     split_find: bool,
+    map_collect: Option<String>,
+    fmt_display: bool,
     iter_find: Option<String>,
     for_ref_skip: bool,
     filter_map_collect: Option<String>,
@@ -539,6 +541,104 @@ impl<'a> VisitMut for RuleVisitor<'a> {
             if let Some(n) = repl {
                 *e = n;
                 self.applied.bump("E23-iter-find-as-early-stop-loop");
+            }
+        }
+        if let Some(elem_ty) = &self.rules.map_collect {
+            // E24[=T]: `X.iter().map(|p| BODY).collect::<Vec<_>>()` ==> `{ let mut __vx_v = Vec::new(); for p in X.iter() { __vx_v.push(BODY); } __vx_v }`
+            // (map/collect over a slice iterator is the loop that pushes each mapped item in order)
+            let mut repl: Option<Expr> = None;
+            if let Expr::MethodCall(c3) = &*e {
+                if c3.method == "collect" && c3.args.is_empty() {
+                    if let Expr::MethodCall(c2) = &*c3.receiver {
+                        if c2.method == "map" && c2.args.len() == 1 {
+                            if let (Expr::Closure(cl), Expr::MethodCall(c1)) = (&c2.args[0], &*c2.receiver) {
+                                if c1.method == "iter" && c1.args.is_empty() && cl.inputs.len() == 1 {
+                                    let recv = &c1.receiver;
+                                    let pat = match &cl.inputs[0] { syn::Pat::Type(pt) => (*pt.pat).clone(), other => other.clone() };
+                                    let body = &cl.body;
+                                    let new_vec: Expr = if elem_ty.is_empty() { parse_quote!(Vec::new()) } else {
+                                        let t: syn::Type = syn::parse_str(elem_ty).unwrap_or(parse_quote!(_));
+                                        parse_quote!(Vec::<#t>::new())
+                                    };
+                                    repl = Some(parse_quote!({
+                                        let mut __vx_v = #new_vec;
+                                        for #pat in #recv.iter() {
+                                            __vx_v.push(#body);
+                                        }
+                                        __vx_v
+                                    }));
+                                }
+                            }
+                        }
+                    }
+                }
+            }
+            if let Some(n) = repl {
+                *e = n;
+                self.applied.bump("E24-map-collect-as-loop");
+            }
+        }
+        if self.rules.fmt_display {
+            // E25: `format!("lit{}lit{name}…", args…)` whose placeholders are all plain `{}` / `{name}` (Display, no format spec) ==>
+            // `{ let mut __vx_s = String::new(); __vx_s.push_str("lit"); __vx_s.push_str(&(arg).to_string()); … __vx_s }`
+            // (what the macro does for Display arguments: the pieces in order; `{{` / `}}` are literal braces)
+            if let Expr::Macro(m) = e {
+                if last_seg(&m.mac.path) == "format" {
+                    let parser = syn::punctuated::Punctuated::<Expr, syn::Token![,]>::parse_terminated;
+                    if let Ok(args) = syn::parse::Parser::parse2(parser, m.mac.tokens.clone()) {
+                        let mut it = args.into_iter();
+                        if let Some(Expr::Lit(syn::ExprLit { lit: syn::Lit::Str(lit), .. })) = it.next() {
+                            let rest: Vec<Expr> = it.collect();
+                            let text = lit.value();
+                            let mut pieces: Vec<Result<String, Expr>> = Vec::new();   // Ok(literal) / Err(argument expression)
+                            let mut cur = String::new();
+                            let mut next_pos = 0usize;
+                            let mut ok = true;
+                            let cs: Vec<char> = text.chars().collect();
+                            let mut i = 0;
+                            while i < cs.len() && ok {
+                                match cs[i] {
+                                    '{' if i + 1 < cs.len() && cs[i + 1] == '{' => { cur.push('{'); i += 2; }
+                                    '}' if i + 1 < cs.len() && cs[i + 1] == '}' => { cur.push('}'); i += 2; }
+                                    '{' => {
+                                        let end = cs[i..].iter().position(|c| *c == '}');
+                                        match end {
+                                            None => ok = false,
+                                            Some(off) => {
+                                                let name: String = cs[i + 1..i + off].iter().collect();
+                                                if !cur.is_empty() { pieces.push(Ok(std::mem::take(&mut cur))); }
+                                                if name.is_empty() {
+                                                    if next_pos < rest.len() { pieces.push(Err(rest[next_pos].clone())); next_pos += 1; } else { ok = false; }
+                                                } else {
+                                                    match syn::parse_str::<syn::Ident>(&name) {
+                                                        Ok(id) => pieces.push(Err(parse_quote!(#id))),
+                                                        Err(_) => ok = false,   // a format spec or a positional index: not handled
+                                                    }
+                                                }
+                                                i += off + 1;
+                                            }
+                                        }
+                                    }
+                                    '}' => ok = false,
+                                    c => { cur.push(c); i += 1; }
+                                }
+                            }
+                            if !cur.is_empty() { pieces.push(Ok(cur)); }
+                            if ok && next_pos == rest.len() {
+                                let mut stmts: Vec<syn::Stmt> = vec![parse_quote!(let mut __vx_s = String::new();)];
+                                for p in pieces {
+                                    match p {
+                                        Ok(l) => { let ls = syn::LitStr::new(&l, lit.span()); stmts.push(parse_quote!(__vx_s.push_str(#ls);)); }
+                                        Err(a) => stmts.push(parse_quote!(__vx_s.push_str(&(#a).to_string());)),
+                                    }
+                                }
+                                *e = parse_quote!({ #(#stmts)* __vx_s });
+                                self.applied.bump("E25-display-format-as-push-sequence");
+                                return;
+                            }
+                        }
+                    }
+                }
             }
         }
         if let Some(elem_ty) = &self.rules.filter_map_collect {
@@ -1213,6 +1313,8 @@ fn transform_fn(
         .unwrap_or_default();
     let rules = Rules {
         split_find: rule_list.iter().any(|r| r == "E19"),
+        map_collect: rule_list.iter().find_map(|r| if r == "E24" { Some(String::new()) } else { r.strip_prefix("E24=").map(String::from) }),
+        fmt_display: rule_list.iter().any(|r| r == "E25"),
         iter_find: rule_list.iter().find_map(|r| if r == "E23" { Some(String::new()) } else { r.strip_prefix("E23=").map(String::from) }),
         for_ref_skip: rule_list.iter().any(|r| r == "E22"),
         filter_map_collect: rule_list.iter().find_map(|r| if r == "E21" { Some(String::new()) } else { r.strip_prefix("E21=").map(String::from) }),
